@@ -867,6 +867,9 @@ class _Canon(ast.NodeTransformer):
                 return self.visit(node)
         self.generic_visit(node)
         name = node.func.attr if isinstance(node.func, ast.Attribute) else (node.func.id if isinstance(node.func, ast.Name) else "")
+        # frozenset({..}) / set([..]) / tuple([..]) of literals used for membership are displays
+        if isinstance(node.func, ast.Name) and name in ("frozenset", "set") and len(node.args) == 1 and not node.keywords and isinstance(node.args[0], (ast.Set, ast.List, ast.Tuple)):
+            return ast.Set(elts=node.args[0].elts)
         # list(<generator>) is a list comprehension, set(<generator>) a set comprehension
         if isinstance(node.func, ast.Name) and name in ("list", "set") and len(node.args) == 1 and not node.keywords and isinstance(node.args[0], (ast.GeneratorExp, ast.ListComp)):
             g = node.args[0]
